@@ -1,7 +1,7 @@
 """C01 - canonicalize_url never changes where the URL leads."""
 import os
 
-from harness import core, tlc
+from harness import core, harvest, tlc
 from harness.core import enc, dec, guarded
 from harness.urlutil import pyparts
 
@@ -62,6 +62,13 @@ def run(ctx):
     data, _ = ctx.generate("Gen_C01", cfg_text="INIT GenInit\nNEXT GenNext\n" + _cfg(0, "{1}", " GLen = %d\n SN = %d\n RLen = %s\n RN = %d\n FocusIdx = {1, 3, 14, 17, 18, 27, 35, 36}\n FLen = %d\n FocusCtx = {1, 4, 9, 11}\n" % (gl, sn, rlen, rn, ctx.pick(4, 5))),
                            env=ENV, heap="12g")
     cases = make_cases(data)
+    # the repository's own test inputs (recorded by the pytest plugin), under all four option settings
+    hv = harvest.inputs(ctx, "canonicalize_url") + harvest.inputs(ctx, "normalize_url")
+    for args, kw in hv:
+        for q in (False, True):
+            for sf in (False, True):
+                cases.append({"u": enc(args[0]), "dp": enc(kw.get("default_protocol", "https")), "quoted": q, "sf": sf})
+    ctx.extra["test_suite_inputs"] = len(hv)
     ctx.extra["focus_strings"] = len(data["focus"])
     ctx.extra["shape_strings"] = len(data["shape"])
     failing = core.judge(ctx, "harness.checks.c01", cases, "Trace_C01", TRACE_CFG, describe, env=ENV,
